@@ -66,6 +66,23 @@ POOL_THOROUGH = POOL_QUICK + [
     "%define n $n", "%Define n v", "%import p", "%import", "%foo x", "k $",
 ]
 RANDOM = {"quick": 3000, "thorough": 200000}
+# syntax of other configuration languages that this grammar does not have:
+# quoting, assignment signs, INI headers, XML attributes / comments /
+# declarations, continuation lines, inline comments - all of it is plain
+# key / value text or a malformed header here
+FOREIGN = [
+    '<a "b c">', "<a 'b c'>", '<a "b">', '<a "b"/>', '<"a" b>', '<a b="c">',
+    '<a "b c"/>', '<a " b">', '<a b"c>', "<a b='c d'/>", '<a ""/>',
+    'k "v w"', '"k" v', "k 'v'", '"k v" w', 'k "', "k ''", 'k "v" "w"',
+    'k "a""b"', "k = v", "k=v", "k: v", "k:v", "k := v", "[a]", "[a b]",
+    "k v # c", "k v ; c", "; c", "// c", "/* c */", "k v \\", "k \\",
+    "<!-- c -->", "<?xml version='1.0'?>", "<!DOCTYPE a>", "<a></a>",
+    "<a>k v</a>", "<a/><b/>", "include f", "@include f", "!include f",
+    "%define n = v", "%define n=v", "%define n: v", '%define n "v w"',
+    "k ${n:-d}", "k ${n-d}", "k $[n]", "k %(n)s", "k {n}", "k `n`",
+    "k $n.x", "k $n-x", "k ${n}}", "k <v>", "k </a>", "k <a/>", "k %define",
+    "k\tv", "k\nv", "k v\n", "<a\tb>", "&lt;a&gt;", "k &amp; v",
+]
 FOLD_PAIRS = [("straße", "strasse"), ("ς", "σ"), ("ﬁle", "file"),
               ("ſ", "s"), ("maſt", "mast"), ("İx", "i̇x"), ("ǅ", "ǆ"),
               ("ß", "ss"), ("é", "e")]
@@ -526,6 +543,15 @@ def _run_shard(ctx):
                                "fold")
                     check_text(ctx, "<x>\n<%s%s/>\n</x>\n<%s>\n</%s>\n"
                                % (a, name, a, b), "fold")
+    # (a') lines written in the syntax of other configuration languages
+    idx = 0
+    for line in FOREIGN:
+        for tmpl in ("%s\n", "%%define n w\n%s\n", "<a>\n%s\n</a>\n",
+                     "<a b>\n  %s\n</a>\n", "%s\n</a>\n", "%s\nk v\n",
+                     "<a>\n%s\n", "%s"):
+            idx += 1
+            if ctx.mine(idx):
+                check_text(ctx, tmpl % line, "foreign")
     # (b) pooled sequences
     pool = POOL_QUICK if ctx.quick else POOL_THOROUGH
     maxlines = 3 if ctx.quick else 4
